@@ -89,6 +89,8 @@ namespace pm
       int action = NO_ACTION;
       std::string tname;  // PEGTL's demangle<>() text when the node is a user-visible type ("" for synthetic nodes)
       std::string errmsg;  // custom error_message of this type ("" = default)
+      std::string mi_msg;  // must_if< Errors >: Errors::message< Rule > ("" = nullptr)
+      bool mi_rof = false; // must_if< Errors >: raise_on_failure< Errors, Rule >
    };
 
    enum kind : int
@@ -201,6 +203,7 @@ namespace pm
       action_script as;
       std::vector< event > events;
       bool ignore_actions = false;  // evaluate as if no action family were attached
+      bool use_must_if = false;     // the run uses a must_if< Errors > control: local failure of flagged rules raises
       std::uint64_t fuel = 2000000;
       std::uint64_t steps = 0;
       bool backtracked_after_consuming = false;  // non-triviality marker
@@ -389,6 +392,14 @@ namespace pm
                saw_veto = true;
                r = fail();
             }
+         }
+         if( use_must_if && r.k == FAIL && n.mi_rof && !n.tname.empty() ) {
+            // must_if< Errors >::control< Rule >::failure() turns the local failure into a global one
+            outcome o;
+            o.k = RAISED;
+            o.blame = ni;
+            o.rpos = pos;
+            r = o;
          }
          if( r.k != OK && events.size() > mark ) {
             events.resize( mark );
